@@ -1,6 +1,18 @@
 HOOK_COMMITS = []
 NOT_APPLICABLE = {}
 META = {
+    "C13": dict(
+        engine="E8 lock facts + E5 listeners",
+        technique="Lean 4 theorem (ranked lock acquisition never deadlocks, any number of threads) instantiated with lock-order edges regenerated from the source by a typed interprocedural analysis (closures in onCloseFunc fields, interface calls); acyclicity by decide over the generated graph; stress on the real manager as failing-input search",
+        text="Kernel-checked: every nested acquisition in the generated lock-order graph goes strictly up a fixed rank, no channel operation happens under a lock, hence no deadlock for any interleaving of listen/close calls and all locks are free afterwards.",
+        note="Proof over generated facts: the extractor (extract/locks.go) is trusted; cross-checked by the lockstress campaign (12 goroutines, ~10^6 listen/close ops, watchdog + goroutine-dump analysis).",
+    ),
+    "C19": dict(
+        engine="E8 lock facts",
+        technique="Lean 4 decide over the regenerated table of all field accesses of the shared structures (locks held through helper calls, critical-section ordinals, pre-publication): guards held, immutables never written, each operation one critical section; race detector + concurrent oracles as failing-input search",
+        text="Kernel-checked over the whole generated access table: every shared mutable field of the key list, replay history, association table, shared listeners and tunnel-time collector is accessed only under its guard (exclusive for writes), lock-free reads only touch never-written fields, and each operation is one critical section (results equal the sequential order of acquisition).",
+        note="Proof over generated facts; extractor trusted. Two documented exemptions (manager on-close closure under managed Close; packet reader goroutine started after write-once fields) are justified by generated wiring facts. The Go memory model is the contract.",
+    ),
     "C01": dict(
         engine="E2 auth + E3 tcp",
         technique="Lean 4 theorems: snapshot is a permutation, first-match lookup sound and complete, (id,key) multiset invariant over all histories of lookups/marks/updates by induction, authenticator attribution/completeness; tied by differential correspondence with the real authenticator (status, id, snapshot index)",
